@@ -663,6 +663,10 @@ def encode_bits(name, ty, v):
 def as_form(v, form, depth=0):
     """the Python value handed to bind(): sequences as tuples, as lists, or alternating by depth"""
     if isinstance(v, list):
+        if depth == 0 and form == "lazy":
+            # zip(*cols) / map(tuple, rows) / a generator of tuples: every nested container is a temporary that is
+            # built when bind asks for it and freed before the next one exists (so object ids repeat)
+            return (as_form(x, "tuple", 1) for x in v)
         inner = "tuple" if form in ("iterator", "generator") else form
         seq = [as_form(x, inner, depth + 1) for x in v]
         if depth == 0 and form == "iterator":
@@ -765,7 +769,9 @@ class Gen:
                     vals = dict(vals)
                     t0 = dict(u["params"]).get(n0, "bool")
                     vals[n0] = (2 ** (width(t0) or 3)) if not isinstance(vals[n0], list) else vals[n0][:1]
-        a = {"target": u["id"], "values": vals, "order": order, "form": r.choice(["tuple", "tuple", "list", "mixed", "iterator", "generator"])}
+        a = {"target": u["id"], "values": vals, "order": order, "form": r.choice(["tuple", "tuple", "list", "mixed", "iterator", "generator", "lazy"])}
+        if r.random() < 0.25:
+            a["share"] = True
         if fault:
             a["fault"] = fault
         self.add("bind", a, [u["id"]])
@@ -938,7 +944,23 @@ def run_segment(plan, ctx, detail=False, table=None):
                 return _compile_callable(op, dict(a, via="plain", defs=a["defs"]), o, tmpdir)
             return qlassf(a["src"], defs=[o[i] for i in a["defs"]], to_compile=a["to_compile"], bool_optimizer=_opt(a["opt"]))
         if op["kind"] == "bind":
-            return o[a["target"]].bind(**{n: as_form(a["values"][n], a.get("form", "tuple")) for n in a["order"]})
+            kw, memo = {}, {}
+            for n in a["order"]:
+                key = canon(a["values"][n])
+                if a.get("share") and key in memo and isinstance(memo[key], (list, tuple)):  # (a one-shot iterator can only be handed over once)
+                    kw[n] = memo[key]  # ONE value object handed over for two parameters
+                    probe("one_value_object_for_two_parameters")
+                else:
+                    kw[n] = memo[key] = as_form(a["values"][n], a.get("form", "tuple"))
+            res_ = o[a["target"]].bind(**kw)
+            if a.get("share"):
+                # the caller goes on using its own lists: what was bound may not follow
+                for v_ in kw.values():
+                    if isinstance(v_, list) and v_:
+                        v_.reverse()
+                        v_.pop()
+                        probe("caller_mutates_its_list_after_bind")
+            return res_
         raise RuntimeError(op["kind"])
 
     def run_one(op, o, flist):
